@@ -12,8 +12,8 @@
      left (`osumn`), exactly as `s = 0; for ..  s += a*b`.  With `FOps` the result is therefore the
      IEEE result of the Rust code bit for bit wherever only + - * / sqrt and comparisons are used.
    - `hypot` is sqrt(a*a + b*b) (exact over R; within an ulp or two of libm's hypot on floats, so the
-     QR and SVD paths are compared with a tolerance); `T::epsilon()` and `copysign` are parameters of the
-     SVD model.
+     QR and SVD paths are compared with a tolerance); `T::epsilon()`, `copysign` and
+     `T::min_positive_value()` are parameters of the SVD model.
    - `Err(..)` / `panic!` are `None` (Cholesky distinguishes its two error sites by a code in Corr.v). *)
 From Coq Require Import List Arith Bool ZArith.
 From SC Require Import Base.Num.
@@ -210,6 +210,9 @@ Section Model.
   Section SVD.
     Variable eps : T.                      (* T::epsilon() *)
     Variable copysign : T -> T -> T.        (* magnitude of the first, sign of the second *)
+    Variable minpos : T.                   (* T::min_positive_value(): smallest positive normal number *)
+    (* `g.abs() >= T::min_positive_value()`: a subnormal (or zero, or NaN) g is not inverted *)
+    Definition invertible (g : T) : bool := leb minpos (abs g).
     Definition two := add one one.
     Definition half := div one two.
 
@@ -343,7 +346,7 @@ Section Model.
       let v3 :=
         if i <? n - 1 then
           let v1 :=
-            if nez g then
+            if invertible g then
               let va := for_up (n - l) l (fun j vx => upd vx j i (div (div (U i j) (U i l)) g)) v in
               for_up (n - l) l (fun j vx =>
                 let s := sum_from l (n - l) (fun k => mul (U i k) (vx k j)) in
@@ -358,7 +361,7 @@ Section Model.
       let g := w i in
       let U1 := for_up (n - l) l (fun j Ux => upd Ux i j zero) U in
       let U2 :=
-        if nez g then
+        if invertible g then
           let g' := div one g in
           let Ua := for_up (n - l) l (fun j Ux =>
                       let s := sum_from l (m - l) (fun k => mul (Ux k i) (Ux k j)) in
